@@ -802,7 +802,9 @@ impl Add<HalfPel> for HalfPel {
     type Output = HalfPel;
 
     fn add(self, rhs: Self) -> Self {
-        HalfPel(self.0 + rhs.0)
+        // Unrestricted motion vectors (Annex D) can be large and accumulate through
+        // prediction; a hostile stream must not be able to overflow the sum.
+        HalfPel(self.0.saturating_add(rhs.0))
     }
 }
 
